@@ -22,6 +22,20 @@ pub struct Plan {
     /// which writes `fail_from` applies to: 0 every call, 1 record data, 2 retirement
     /// markers, 3 the allocation journal (fsyncs keep working for 1..3)
     pub from_kind: u8,
+    /// answers on the io_uring path, see `FaultState::uring_plan`
+    pub uring: Vec<(u8, usize)>,
+}
+
+impl Plan {
+    pub fn none() -> Plan {
+        Plan { answers: vec![], fail_from: None, from_kind: 0, uring: vec![] }
+    }
+    fn single(i: usize, c: u8) -> Plan {
+        Plan { answers: vec![(i, c)], ..Plan::none() }
+    }
+    fn from(i: usize, kind: u8) -> Plan {
+        Plan { fail_from: Some(i), from_kind: kind, ..Plan::none() }
+    }
 }
 
 fn answer(code: u8) -> IoAnswer {
@@ -91,6 +105,26 @@ pub fn workloads(thorough: bool) -> Vec<(String, Cfg, Vec<Op>)> {
     v
 }
 
+/// Workloads on the io_uring batch path (record data goes through the ring; journal,
+/// marker and metadata writes and every fsync stay on the synchronous path).
+pub fn uring_workloads() -> Vec<(String, Cfg, Vec<Op>)> {
+    let mut disk = Cfg::persistent(12);
+    disk.cache = true;
+    disk.uring = true;
+    vec![
+        ("uring-two-batches".to_string(), disk, vec![ins(0, 0), ins(1, 2), Op::Flush, Op::Delete { k: 1, ts: 0 }, ins(0, 1), Op::Flush]),
+        ("uring-overwrite".to_string(), disk, vec![ins(0, 2), Op::Flush, ins(0, 0), ins(2, 1), ins(3, 0), Op::Flush, Op::Flush]),
+    ]
+}
+
+pub fn workload_by_index(thorough: bool, wi: usize) -> (String, Cfg, Vec<Op>) {
+    if wi >= 100 {
+        uring_workloads().swap_remove(wi - 100)
+    } else {
+        workloads(thorough).swap_remove(wi)
+    }
+}
+
 pub struct FaultRun {
     pub calls: Vec<CallKind>,
     pub problems: Vec<String>,
@@ -99,11 +133,13 @@ pub struct FaultRun {
     pub recoveries: u64,
     pub outs: Vec<Out>,
     pub indeterminate: bool,
+    /// io_uring consultations seen: enter, push, completion
+    pub uring_counts: [usize; 3],
 }
 
 /// Execute `ops` under `plan`, then heal the device, and apply every oracle.
 pub fn run(cfg: Cfg, t: &Tables, ops: &[Op], plan: &Plan, seen: &Mutex<HashSet<u128>>) -> FaultRun {
-    let mut fr = FaultRun { calls: Vec::new(), problems: Vec::new(), machinery: None, images: 0, recoveries: 0, outs: Vec::new(), indeterminate: false };
+    let mut fr = FaultRun { calls: Vec::new(), problems: Vec::new(), machinery: None, images: 0, recoveries: 0, outs: Vec::new(), indeterminate: false, uring_counts: [0; 3] };
     // Shard assignment is randomised per store: with two workers rebuild until key `a`
     // lives on worker 1's shard and `b` on worker 0's (worker 0 also owns the retirement
     // queue's periodic wake-up), so that the call sequence is reproducible.
@@ -139,6 +175,8 @@ pub fn run(cfg: Cfg, t: &Tables, ops: &[Op], plan: &Plan, seen: &Mutex<HashSet<u
             .collect();
         f.fail_from = plan.fail_from;
         f.fail_from_kind = plan.from_kind;
+        f.uring_plan = plan.uring.clone();
+        f.uring_counts = [0; 3];
         f.calls.clear();
     }
     let mut model = Model::new(cfg, T0);
@@ -193,11 +231,13 @@ pub fn run(cfg: Cfg, t: &Tables, ops: &[Op], plan: &Plan, seen: &Mutex<HashSet<u
         step(&mut sut, &mut model, op, &mut fr, &mut all_ops, &mut snapshots, true);
     }
     fr.calls = sut.sess.fault.lock().calls.clone();
+    fr.uring_counts = sut.sess.fault.lock().uring_counts;
     // ---- the device works again
     {
         let mut f = sut.sess.fault.lock();
         f.plan.clear();
         f.fail_from = None;
+        f.uring_plan.clear();
     }
     step(&mut sut, &mut model, &Op::Flush, &mut fr, &mut all_ops, &mut snapshots, false);
     let healed_ok = fr.outs.last() == Some(&Out::Unit);
@@ -207,6 +247,16 @@ pub fn run(cfg: Cfg, t: &Tables, ops: &[Op], plan: &Plan, seen: &Mutex<HashSet<u
     }
     sut.sess.mark(3, 0);
     sut.close();
+    // every deallocation of the run has happened by now (the store is gone): was a buffer
+    // returned to the allocator while the kernel still owned it?
+    if let Some((_, len)) = crate::kledger::take_violation() {
+        fr.problems.push(format!(
+            "C20: a write buffer of {len} bytes queued in an io_uring submission was returned to the allocator before its completion was seen (the kernel may still be reading from it)"
+        ));
+    }
+    if crate::kledger::overflowed() {
+        fr.machinery = Some("kernel-ownership ledger overflowed".into());
+    }
     let log = sut.sess.take_log();
     // ---- crash images of the whole history against the acknowledgement windows
     let ob = Obligations::from_path(&keys, &all_ops, &fr.outs, &snapshots, &log, cfg.ttl, false);
@@ -255,18 +305,22 @@ pub fn run(cfg: Cfg, t: &Tables, ops: &[Op], plan: &Plan, seen: &Mutex<HashSet<u
 
 fn plan_to_string(p: &Plan) -> String {
     let a: Vec<String> = p.answers.iter().map(|(i, c)| format!("{i}:{c}")).collect();
-    format!("{}|{}:{}", a.join(","), p.fail_from.map_or("-".to_string(), |f| f.to_string()), p.from_kind)
+    let u: Vec<String> = p.uring.iter().map(|(k, i)| format!("{}{i}", *k as char)).collect();
+    format!("{}|{}:{}|{}", a.join(","), p.fail_from.map_or("-".to_string(), |f| f.to_string()), p.from_kind, u.join(","))
 }
 
 fn plan_from_string(s: &str) -> Plan {
-    let (a, f) = s.split_once('|').unwrap_or((s, "-"));
+    let mut parts = s.split('|');
+    let a = parts.next().unwrap_or("");
+    let f = parts.next().unwrap_or("-");
+    let uring: Vec<(u8, usize)> = parts.next().unwrap_or("").split(',').filter(|x| !x.is_empty()).filter_map(|x| x[1..].parse().ok().map(|i| (x.as_bytes()[0], i))).collect();
     let answers = a
         .split(',')
         .filter(|x| !x.is_empty())
         .filter_map(|x| x.split_once(':').map(|(i, c)| (i.parse().unwrap_or(0), c.parse().unwrap_or(1))))
         .collect();
     let (from, kind) = f.split_once(':').unwrap_or((f, "0"));
-    Plan { answers, fail_from: from.parse().ok(), from_kind: kind.parse().unwrap_or(0) }
+    Plan { answers, fail_from: from.parse().ok(), from_kind: kind.parse().unwrap_or(0), uring }
 }
 
 struct PlanResult {
@@ -277,6 +331,7 @@ struct PlanResult {
     images: u64,
     recoveries: u64,
     outs_hash: u64,
+    uring_counts: [usize; 3],
 }
 
 /// Child entry: `fv c09-worker <thorough> <workload index> <file with one plan per line>`.
@@ -288,7 +343,7 @@ pub fn worker(args: &[String]) -> i32 {
     let wi: usize = args[1].parse().unwrap();
     let text = std::fs::read_to_string(&args[2]).unwrap_or_default();
     let t = tables();
-    let (_, cfg, ops) = workloads(thorough).swap_remove(wi);
+    let (_, cfg, ops) = workload_by_index(thorough, wi);
     let seen: Mutex<HashSet<u128>> = Mutex::new(HashSet::new());
     let out = std::io::stdout();
     for line in text.lines().filter(|l| !l.is_empty()) {
@@ -296,7 +351,7 @@ pub fn worker(args: &[String]) -> i32 {
         let r = run(cfg, &t, &ops, &plan, &seen);
         let calls: String = r.calls.iter().map(|c| if *c == CallKind::Write { 'W' } else { 'F' }).collect();
         let mut o = out.lock();
-        let _ = writeln!(o, "R\t{line}\t{calls}\t{}\t{}\t{}", r.images, r.recoveries, hash64(&[format!("{:?}", r.outs).as_bytes()]));
+        let _ = writeln!(o, "R\t{line}\t{calls}\t{}\t{}\t{}\t{},{},{}", r.images, r.recoveries, hash64(&[format!("{:?}", r.outs).as_bytes()]), r.uring_counts[0], r.uring_counts[1], r.uring_counts[2]);
         if let Some(m) = r.machinery {
             let _ = writeln!(o, "M\t{line}\t{}", m.replace('\n', " "));
         }
@@ -344,6 +399,10 @@ fn exec_plans(thorough: bool, wi: usize, plans: Vec<Plan>, dl: &Deadline, stop: 
                     images: f[3].parse().unwrap_or(0),
                     recoveries: f[4].parse().unwrap_or(0),
                     outs_hash: f[5].parse().unwrap_or(0),
+                    uring_counts: {
+                        let v: Vec<usize> = f.get(6).unwrap_or(&"").split(',').filter_map(|x| x.parse().ok()).collect();
+                        [v.first().copied().unwrap_or(0), v.get(1).copied().unwrap_or(0), v.get(2).copied().unwrap_or(0)]
+                    },
                 }),
                 Some("P") if f.len() >= 3 => {
                     if let Some(l) = local.last_mut() {
@@ -360,7 +419,7 @@ fn exec_plans(thorough: bool, wi: usize, plans: Vec<Plan>, dl: &Deadline, stop: 
         }
         if !out.status.success() {
             // the child died: the plan after the last reported one is the culprit
-            let next = chunk.get(local.len()).cloned().unwrap_or(Plan { answers: vec![], fail_from: None, from_kind: 0 });
+            let next = chunk.get(local.len()).cloned().unwrap_or(Plan::none());
             let by_signal = {
                 use std::os::unix::process::ExitStatusExt;
                 out.status.signal().is_some()
@@ -373,6 +432,7 @@ fn exec_plans(thorough: bool, wi: usize, plans: Vec<Plan>, dl: &Deadline, stop: 
                 images: 0,
                 recoveries: 0,
                 outs_hash: 0,
+                uring_counts: [0; 3],
             });
         }
         results.lock().unwrap().extend(local);
@@ -396,7 +456,7 @@ pub fn check(tier: &str, budget_s: f64, report: &mut Report) {
         let long = name.starts_with("hole-refill");
         let max_dev: usize = if thorough { 3 } else { 2 } - usize::from(long);
         // 0 deviations: learn the call sequence
-        let base_run = run(cfg, &t, &ops, &Plan { answers: vec![], fail_from: None, from_kind: 0 }, &seen);
+        let base_run = run(cfg, &t, &ops, &Plan::none(), &seen);
         if let Some(m) = base_run.machinery {
             report.machinery(format!("[{name}] {m}"));
             continue;
@@ -409,13 +469,13 @@ pub fn check(tier: &str, budget_s: f64, report: &mut Report) {
         for i in 0..n {
             let codes: &[u8] = if base_run.calls[i] == CallKind::Write { &[1, 2, 3, 4] } else { &[1, 2] };
             for &c in codes {
-                level.push(Plan { answers: vec![(i, c)], fail_from: None, from_kind: 0 });
+                level.push(Plan::single(i, c));
             }
-            level.push(Plan { answers: vec![], fail_from: Some(i), from_kind: 0 });
+            level.push(Plan::from(i, 0));
             if base_run.calls[i] == CallKind::Write {
                 // one class of writes keeps failing from here on, the rest of the device works
                 for kind in 1..=3u8 {
-                    level.push(Plan { answers: vec![], fail_from: Some(i), from_kind: kind });
+                    level.push(Plan::from(i, kind));
                 }
             }
         }
@@ -454,7 +514,7 @@ pub fn check(tier: &str, budget_s: f64, report: &mut Report) {
                         for &c in codes {
                             let mut a = r.plan.answers.clone();
                             a.push((j, c));
-                            next.push(Plan { answers: a, fail_from: None, from_kind: 0 });
+                            next.push(Plan { answers: a, ..Plan::none() });
                         }
                     }
                 }
@@ -499,4 +559,161 @@ pub fn check(tier: &str, budget_s: f64, report: &mut Report) {
     report.set("max_deviations_long_workloads", if thorough { 2 } else { 1 });
     report.set("exhaustive", exhaustive);
     report.assumptions.push("faults are injected on the synchronous write path (io_uring disabled); a failed fsync makes nothing newly durable (before) or everything (after)".into());
+}
+
+/// The io_uring batch path: every single deviation on the submission / completion seam
+/// (enter interrupted, enter fails, enter interrupted then fails, submission queue full at
+/// each push, each completion reporting an error or a short write), alone and paired with
+/// every other single deviation of the workload (io_uring or synchronous path).
+/// `for_c20`: report the kernel-ownership verdicts (and panics) instead of the C09 ones.
+pub fn check_uring(budget_s: f64, for_c20: bool, report: &mut Report) {
+    let t = tables();
+    let dl = Deadline::new(budget_s);
+    let seen: Mutex<HashSet<u128>> = Mutex::new(HashSet::new());
+    let mut per = serde_json::Map::new();
+    let mut outcome_set: HashSet<u64> = HashSet::new();
+    let (mut runs, mut images, mut recoveries) = (0u64, 0u64, 0u64);
+    let mut exhaustive = true;
+    let n_workloads = uring_workloads().len();
+    for (i, (name, cfg, ops)) in uring_workloads().into_iter().enumerate() {
+        let wi = 100 + i;
+        let base_run = run(cfg, &t, &ops, &Plan::none(), &seen);
+        if let Some(m) = base_run.machinery {
+            report.machinery(format!("[{name}] {m}"));
+            continue;
+        }
+        if base_run.uring_counts[1] == 0 {
+            report.machinery(format!("[{name}] no io_uring submission was seen: the ring is not in use (hooks missing or io_uring unavailable)"));
+            continue;
+        }
+        for p in &base_run.problems {
+            if p.starts_with("C20:") == for_c20 {
+                report.violation(format!("uring|{name}|no-fault|{}", p.chars().take(120).collect::<String>()), format!("workload {name} without faults: {p}"), json!({"engine":"fault","workload":name,"plan":"none"}));
+            }
+        }
+        let [enters, pushes, cqes] = base_run.uring_counts;
+        // single deviations on the ring
+        let mut ring: Vec<Vec<(u8, usize)>> = Vec::new();
+        for e in 0..enters {
+            ring.push(vec![(b'E', e)]);
+            ring.push(vec![(b'I', e)]);
+            ring.push(vec![(b'I', e), (b'E', e + 1)]);
+        }
+        for q in 0..pushes {
+            ring.push(vec![(b'Q', q)]);
+        }
+        for c in 0..cqes {
+            ring.push(vec![(b'C', c)]);
+            ring.push(vec![(b'S', c)]);
+        }
+        // single deviations on the synchronous path of the same workload
+        let mut sync: Vec<Plan> = Vec::new();
+        for (i, kind) in base_run.calls.iter().enumerate() {
+            let codes: &[u8] = if *kind == CallKind::Write { &[1, 2, 3] } else { &[1, 2] };
+            for &c in codes {
+                sync.push(Plan::single(i, c));
+            }
+        }
+        let level1: Vec<Plan> = ring.iter().map(|u| Plan { uring: u.clone(), ..Plan::none() }).collect();
+        let mut level2: Vec<Plan> = Vec::new();
+        for (a, ua) in ring.iter().enumerate() {
+            for ub in ring.iter().skip(a + 1) {
+                if ua.iter().any(|x| ub.contains(x)) {
+                    continue;
+                }
+                let mut u = ua.clone();
+                u.extend(ub.iter().copied());
+                u.sort();
+                level2.push(Plan { uring: u, ..Plan::none() });
+            }
+            for s in &sync {
+                level2.push(Plan { uring: ua.clone(), ..s.clone() });
+            }
+        }
+        level2.sort();
+        level2.dedup();
+        let stop = AtomicBool::new(false);
+        let mut bad: Vec<(Plan, String)> = Vec::new();
+        let mut completed_levels = 0;
+        let mut executed = 0u64;
+        let (n1, n2) = (level1.len(), level2.len());
+        // the remaining budget is shared between the workloads still to run
+        let share = Deadline::new(((budget_s - dl.elapsed()) / (n_workloads - i) as f64).max(2.0));
+        for (depth, level) in [level1, level2].into_iter().enumerate() {
+            let n_level = level.len() as u64;
+            // level 1 is the floor of the check: it runs whatever the clock says
+            let level_dl = if depth == 0 { Deadline::new(600.0) } else { Deadline::new((share.limit() - share.elapsed()).max(0.5)) };
+            let results = exec_plans(false, wi, level, &level_dl, &stop);
+            let done = results.len() as u64;
+            for r in results {
+                runs += 1;
+                images += r.images;
+                recoveries += r.recoveries;
+                outcome_set.insert(r.outs_hash);
+                if let Some(m) = r.machinery {
+                    bad.push((r.plan.clone(), format!("MACHINERY {m}")));
+                    continue;
+                }
+                for p in r.problems {
+                    let mine = if for_c20 { p.starts_with("C20:") || p.contains("panicked") || p.contains("was killed") } else { !p.starts_with("C20:") };
+                    if mine && bad.len() < 60 {
+                        bad.push((r.plan.clone(), p));
+                    }
+                }
+            }
+            executed += done;
+            if stop.load(Ordering::Relaxed) || done < n_level {
+                exhaustive = false;
+                break;
+            }
+            completed_levels = depth + 1;
+        }
+        bad.sort();
+        for (plan, msg) in bad.into_iter().take(6) {
+            if let Some(m) = msg.strip_prefix("MACHINERY ") {
+                report.machinery(format!("[{name}] {m}"));
+                continue;
+            }
+            let ring_text: Vec<String> = plan
+                .uring
+                .iter()
+                .map(|(k, i)| {
+                    format!(
+                        "{} #{i}",
+                        match *k {
+                            b'E' => "io_uring_enter fails",
+                            b'I' => "io_uring_enter is interrupted",
+                            b'Q' => "submission queue full at push",
+                            b'C' => "completion reports an error",
+                            _ => "completion reports a short write",
+                        }
+                    )
+                })
+                .collect();
+            report.violation(
+                format!("uring|{name}|{}|{}", plan_to_string(&plan), msg.chars().take(120).collect::<String>()),
+                format!("workload {name}: {:?}\nio_uring deviations: {ring_text:?}; synchronous-path answers: {:?}\n{msg}", ops.iter().map(|o| t.describe(o)).collect::<Vec<_>>(), plan.answers),
+                json!({"engine":"fault","workload":name,"plan":plan_to_string(&plan)}),
+            );
+        }
+        per.insert(
+            name.clone(),
+            json!({"io_uring_enter_calls": enters, "submissions": pushes, "completions": cqes, "synchronous_device_calls": base_run.calls.len(),
+                   "single_deviation_plans": n1, "pair_plans": n2, "plans_executed": executed, "deviation_levels_completed": completed_levels}),
+        );
+    }
+    let (queued, completed, outstanding, _) = crate::kledger::counters();
+    let _ = (queued, completed, outstanding);
+    report.add("evaluations", runs);
+    report.add("uring_plans_executed", runs);
+    report.add("distinct_nontrivial", outcome_set.len() as u64);
+    report.add("crash_images_enumerated", images);
+    report.add("recoveries_run", recoveries);
+    report.set("uring_workloads", serde_json::Value::Object(per));
+    report.set("uring_exhaustive", exhaustive);
+    report.assumptions.push(
+        "io_uring seam: an injected io_uring_enter failure replaces the call (with SQPOLL the kernel may or may not execute the published submissions: the device log treats them as in flight for ever); \
+         a buffer is kernel-owned from its submission until the code reaps its completion; completions' results are overridden in place of real device errors"
+            .into(),
+    );
 }
